@@ -97,8 +97,13 @@ def check(facts, rep, tier, cfg):
             continue
         bad = None
         for ef in effs:
-            order = [idx(ef, "flag:set", exact=True), idx(ef, "outq:close"), idx(ef, "ws:poll_close"), idx(ef, "map:drain"), idx(ef, "dropq:close")]
-            if any(o is None for o in order[1:]) or [o for o in order if o is not None] != sorted(o for o in order if o is not None):
+            order = [idx(ef, "outq:close"), idx(ef, "ws:poll_close"), idx(ef, "map:drain"), idx(ef, "dropq:close")]
+            if any(o is None for o in order) or order != sorted(order):
+                bad = ef
+                break
+            # the closed flag is set before the queue closes (forbid-writes loop) or while draining the table (per-slot close);
+            # a flag:set between the two means the forbid-writes step was moved behind the queue close
+            if any(e == "flag:set" and order[0] < i < order[2] for i, e in enumerate(ef)):
                 bad = ef
                 break
         if bad:
